@@ -129,8 +129,20 @@ BIG = [{'attr': {'1': 0, '2': [[2, [65001, 65002]]], '3': '10.0.0.1'}, 'nlri': [
         'withdraw': [], 'afi_safi': 'ipv4'} for n in (500, 1000)]
 
 
+# payloads neither json library can serialise (tuple keys, octet strings that are not UTF-8, sets, nesting of those):
+# still exactly one complete record per event
+HOSTILE = [
+    {'attr': {(1, 1): 'x'}, 'nlri': [], 'withdraw': [], 'afi_safi': 'ipv4'},
+    {'attr': {'14': {'afi_safi': (2, 133), 'nlri': b'\xff\xfe'}}, 'nlri': [], 'withdraw': [], 'afi_safi': None},
+    {'attr': {'8': {'NO_EXPORT', '1:1'}}, 'nlri': [], 'withdraw': [], 'afi_safi': 'ipv4'},
+    {'attr': {'x': {(25, 70): {b'\xc3': {1, 2}}}}, 'nlri': [(1, 2)], 'withdraw': [], 'afi_safi': 'ipv4'},
+]
+
+
 def payload_for(kind, idx):
     if kind in ('update_received', 'on_update_error'):
+        if idx >= 300:
+            return HOSTILE[(idx - 300) % len(HOSTILE)]
         if idx >= 200:
             return BIG[(idx - 200) % len(BIG)]
         if idx >= 100:
@@ -340,7 +352,7 @@ def run_case(case):
 
 ev_op = st.tuples(st.just('ev'), st.sampled_from([0, 0, 0, 1, 2, 3, 4, 5, 6, 7, 8, 9]),
                   st.one_of(st.integers(0, 7), st.integers(0, 7), st.integers(100, 100 + len(DECODED) - 1),
-                            st.sampled_from([200, 201]))).map(list)
+                            st.sampled_from([200, 201]), st.sampled_from([300, 301, 302, 303]))).map(list)
 op = st.one_of(ev_op, ev_op, ev_op, st.just(['restart']),
                st.tuples(st.just('torn'), st.sampled_from([0, 0, 1, 3, 6, 7]), st.one_of(st.integers(0, 7), st.sampled_from([200, 201])),
                          st.one_of(st.integers(0, 400), st.integers(0, 30000))).map(list))
@@ -369,7 +381,7 @@ def run_shard(spec, seed, col, tier):
         hyp_run(col, case_strategy, body, seed, spec['examples'])
     elif spec['kind'] == 'exh':
         alpha = [['ev', 0, 0], ['ev', 0, 2], ['ev', 7, 4], ['restart'], ['torn', 0, 0, 5], ['torn', 0, 2, 150], ['torn', 7, 4, 1],
-                 ['ev', 0, 201], ['torn', 0, 201, 9000]]
+                 ['ev', 0, 201], ['torn', 0, 201, 9000], ['ev', 0, 300], ['ev', 0, 303]]
         seqs = list(itertools.product(range(len(alpha)), repeat=spec['len']))[spec['part']::spec['parts']]
         for ms in (150, 10 ** 9):
             for s in seqs:
